@@ -481,8 +481,16 @@ def check(prop, tier, seed):
                 json.dump({'property': prop, 'signature': sig,
                            'violation': v, 'hashseeds': [0, 4242],
                            'case': case}, f, indent=1, default=str)
-            reported.append((sig, path, v))
-            n_reported += 1
+            env = dict(os.environ, VERIF_NO_REEXEC='1')
+            pr = subprocess.run([PY, os.path.join(VERIF, 'bin', 'check'),
+                                 prop, '--replay', path],
+                                stdout=subprocess.PIPE, stderr=subprocess.PIPE,
+                                env=env, cwd=VERIF, timeout=900)
+            if pr.returncode == 1 and b'REPRODUCED' in pr.stdout:
+                reported.append((sig, path, v))
+                n_reported += 1
+            else:
+                unconfirmed.append(sig)
             continue
         mini, evals = minimise.minimise(case, prop, sig,
                                         budget_s=b['minimise_s'])
@@ -653,6 +661,7 @@ def main(argv):
     ap.add_argument('--replay')
     ap.add_argument('--expect-signature')
     ap.add_argument('--digests', nargs=2)
+    ap.add_argument('--case-digest')
     a = ap.parse_args(argv)
     if a.prop not in CLAIMED:
         print('property %s is not claimed (see MANIFEST.not_applicable)' %
@@ -662,8 +671,38 @@ def main(argv):
         print_digests(a.prop, int(a.digests[0]),
                       [int(x) for x in a.digests[1].split(',') if x])
         return 0
+    if a.case_digest:
+        vs, doc, rep = replay_file(a.prop, a.case_digest)
+        print('CASEDIGEST %s %s' % (rep['trace_digest'],
+                                    sha(rep['result_digests'])))
+        return 0
     if a.replay:
         from sim import known
+        with open(a.replay) as f:
+            doc0 = json.load(f)
+        if doc0.get('hashseeds'):
+            # a result that depends on the interpreter's hash seed: replay =
+            # the same case in fresh interpreters under both seeds
+            digs = {}
+            for hs in doc0['hashseeds']:
+                env = dict(os.environ, PYTHONHASHSEED=str(hs),
+                           VERIF_NO_REEXEC='1')
+                p = subprocess.run([PY, os.path.join(VERIF, 'bin', 'check'),
+                                    a.prop, '--case-digest', a.replay],
+                                   stdout=subprocess.PIPE,
+                                   stderr=subprocess.PIPE, env=env, cwd=VERIF,
+                                   timeout=600)
+                for line in p.stdout.decode().splitlines():
+                    if line.startswith('CASEDIGEST '):
+                        digs[hs] = line.split()[2]
+            print('result digests per PYTHONHASHSEED: %r' % (digs,))
+            if len(digs) == len(doc0['hashseeds']) and \
+                    len(set(digs.values())) > 1:
+                print('REPRODUCED')
+                print('VIOLATION property=%s replay=%s' % (a.prop, a.replay))
+                return 1
+            print('not reproduced')
+            return 0
         vs, doc, rep = replay_file(a.prop, a.replay)
         sig = a.expect_signature or doc.get('signature')
         hit = [v for v in vs if sig is None or v['signature'] == sig]
